@@ -6,6 +6,7 @@ import (
 	_ "verifharness/c02"
 	_ "verifharness/c04"
 	_ "verifharness/c05"
+	_ "verifharness/c06"
 	_ "verifharness/c10"
 	_ "verifharness/c18"
 )
